@@ -169,4 +169,9 @@ def _reconstruct_modulus_data(
             )
             prog.increment()
 
+    # Restore the order in which the options were submitted since results may
+    # arrive in any order when multiple processes are used.
+    order: Dict[Tuple[str, str], int] = {(a[3], a[4]): i for i, a in enumerate(args)}
+    reconstructions.sort(key=lambda _: order[(_[2], _[3])])
+
     return reconstructions
